@@ -86,7 +86,10 @@ func runProg(t *testing.T, prop string, c *caseT) bool {
 		held = false
 	} else if pn != nil {
 		msg := fmt.Sprint(pn)
-		if strings.Contains(msg, "deadlock") {
+		if strings.Contains(msg, "deadlock") && c.End == "pacer-stays" {
+			// a throttling stage under a context that can never be cancelled keeps its pacer for good (the property
+			// allows the pacer until cancel): the bubble cannot end cleanly, the verdict was taken before
+		} else if strings.Contains(msg, "deadlock") {
 			rec.Violate(prop+"/"+c.Stage+"/deadlock", "the program cannot finish: every goroutine of the bubble is blocked forever ("+firstLine(msg)+")"+blockedStacks(msg), c)
 		} else {
 			rec.Violate(prop+"/"+c.Stage+"/panic", "panic: "+firstLine(msg), c)
@@ -894,6 +897,7 @@ func init() {
 }
 
 func progsC13(t *testing.T) {
+	progsC13Idle(t)
 	typedProgs(t, "C13")
 	for _, ops := range thresholds(1, common.Pick(4200, 70000)) {
 		for i, cp := range []int{0, 1, 5} {
@@ -1221,6 +1225,94 @@ func progsSlow(t *testing.T, prop string) {
 				}
 				for _, cp := range []int{0, 2} {
 					runProg(t, prop, &caseT{Stage: "prog/slow-parties", Mode: st, N: 6, Cap: cp, Tick: int64(p), Delay: int(q / time.Millisecond)})
+				}
+			}
+		}
+	}
+}
+
+// ---------------------------------------------------------------- C13: idle, then a burst
+
+func init() {
+	// nothing arrives for a while (tokens pile up to one interval's worth), then a burst with a ready consumer: no
+	// window of one interval may see more than 2*ops+1+c deliveries, under every kind of context
+	progs["throttle-idle-burst"] = func(c *caseT) string {
+		var ctx context.Context
+		cancel := func() {}
+		switch c.Mode {
+		case "background":
+			ctx = context.Background()
+		case "todo":
+			ctx = context.TODO()
+		case "without-cancel":
+			p, cf := context.WithCancel(context.Background())
+			ctx = context.WithoutCancel(p)
+			cancel = cf
+		case "deadline-far":
+			ctx, cancel = context.WithTimeout(context.Background(), 1000*time.Hour)
+		default:
+			ctx, cancel = context.WithCancel(context.Background())
+		}
+		defer cancel()
+		ops, iv := c.N, time.Duration(c.Tick)
+		in := make(chan int, c.Cap)
+		out := pipe.Throttling(ctx, in, ops, iv)
+		start := time.Now()
+		var at []time.Duration
+		total := 0
+		burst := func(n int) string {
+			done := make(chan struct{})
+			go func() {
+				defer close(done)
+				for i := 0; i < n; i++ {
+					in <- total + i
+				}
+			}()
+			for i := 0; i < n; i++ {
+				v := <-out
+				if v != total+i {
+					return fmt.Sprintf("element %d delivered at position %d", v, total+i)
+				}
+				at = append(at, time.Since(start))
+			}
+			<-done
+			total += n
+			return ""
+		}
+		idle := time.Duration(c.Delay) * iv / 4 // Delay = quarter intervals of idleness
+		for round := 0; round < 3; round++ {
+			time.Sleep(idle)
+			if d := burst(4*ops + 3 + c.Cap); d != "" {
+				return d
+			}
+		}
+		close(in)
+		if _, ok := <-out; ok {
+			return "an element nobody sent"
+		}
+		lo := 0
+		for i, ti := range at {
+			for at[lo] <= ti-iv {
+				lo++
+			}
+			if n := i - lo + 1; n > 2*ops+1+c.Cap {
+				return fmt.Sprintf("ops=%d interval=%v cap=%d, idle %v then a burst (context: %s): %d deliveries within one interval ending at %v, bound is %d", ops, iv, c.Cap, idle, c.Mode, n, ti, 2*ops+1+c.Cap)
+			}
+		}
+		return ""
+	}
+}
+
+func progsC13Idle(t *testing.T) {
+	for _, ops := range []int{1, 2, 5, 16, 100} {
+		for _, q := range []int{0, 1, 4, 5, 13, 40} {
+			for _, cp := range []int{0, 3} {
+				for _, mode := range []string{"", "background", "todo", "without-cancel", "deadline-far"} {
+					end := ""
+					if mode == "background" || mode == "todo" || mode == "without-cancel" {
+						end = "pacer-stays"
+					}
+					runProg(t, "C13", &caseT{Stage: "prog/throttle-idle-burst", N: ops, Cap: cp, Delay: q, Mode: mode, End: end, Tick: int64(200 * time.Millisecond)})
 				}
 			}
 		}
